@@ -55,14 +55,17 @@ def guardOk (g : Guard) (ty : Ty) : Bool :=
 
 def ruleInfo (name : String) : Option RuleInfo := Facts.allRules.find? (·.name == name)
 
-/-- validatorhelper.Zero -/
-def zeroLit : (fuel : Nat) → Ty → String
-  | 0, _ => ""
-  | fuel + 1, ty =>
-    match ty with
-    | .basic k => ((Facts.zeroOfBasic.find? (fun p => p.1.contains k.goName)).map (·.2)).getD ""
-    | .named u => if Facts.zeroViaUnderlying.contains "Named" then zeroLit fuel u else ""
-    | t => if Facts.zeroNilTypes.contains t.className then "nil" else ""
+/-- validatorhelper.Zero on a type that is not Named/Alias -/
+def zeroBase (ty : Ty) : String :=
+  match ty with
+  | .basic k => ((Facts.zeroOfBasic.find? (fun p => p.1.contains k.goName)).map (·.2)).getD ""
+  | t => if Facts.zeroNilTypes.contains t.className then "nil" else ""
+
+/-- validatorhelper.Zero: Named/Alias types are resolved through `Underlying()` (fully resolved in go/types) -/
+def zeroLit (ty : Ty) : String :=
+  match ty with
+  | .named _ => if Facts.zeroViaUnderlying.contains "Named" then zeroBase ty.underlying else ""
+  | t => zeroBase t
 
 /-- rules/required.go `required(name, typ)` -/
 def requiredCond (f : String) (ty : Ty) : Option GoExpr :=
@@ -70,17 +73,21 @@ def requiredCond (f : String) (ty : Ty) : Option GoExpr :=
   match Facts.required_cases.find? (fun c => c.1.contains subject.className) with
   | some c => some (c.2 f)
   | none =>
-    let z := zeroLit 8 ty
+    let z := zeroLit ty
     if z == "" then none else some (Facts.required_zeroCond f z)
 
 def trimSpace (s : String) : String := s.trimAscii.toString
 
+/-- enum.go: `isNumeric` (otherwise `isString`/`isCustom`: quoted items) -/
+def enumIsNum (g : Guard) (ty : Ty) : Bool :=
+  match g, ty.underlying with
+  | .enumKinds _ num, .basic k => num.contains k.goName
+  | _, _ => false
+
 /-- rules/enum.go `Validate()` -/
 def enumCond (f : String) (ty : Ty) (param : String) (g : Guard) : Option GoExpr :=
   let items := (param.splitOn Facts.enum_sep).map trimSpace
-  let isNum := match g, ty.underlying with
-    | .enumKinds _ num, .basic k => num.contains k.goName
-    | _, _ => false
+  let isNum := enumIsNum g ty
   let conds := items.map fun it => if isNum then Facts.enum_itemNum f it else Facts.enum_itemStr f it
   match conds with
   | [] => none
@@ -107,6 +114,22 @@ def sprintf1 (fmt a : String) : String :=
   | [x, y] => x ++ a ++ y
   | _ => fmt
 
+/-- the validator object built by a factory (names per rules/*.go: ErrVariable, legacy alias, memory key) -/
+def buildCheck (structName : String) (parent : List String) (f : String) (ty : Ty) (markerId : String)
+    (info : RuleInfo) (cond : Option GoExpr) : Check :=
+  let path := structName :: parent ++ [f]
+  let cp := cleanedPath path
+  { rule := (markerId.drop 8).toString, field := f, ty := ty, cond := cond, path := path,
+    errVar := "Err" ++ cp ++ info.errSuffix ++ "Validation",
+    legacy := sprintf2 info.legacyFmt structName f,
+    memKey := sprintf1 info.keyFmt (if info.keyWithStruct then structName ++ cp else cp) }
+
+/-- `Validate()` of the rule's validator -/
+def ruleCond (rule f : String) (ty : Ty) (param : String) (info : RuleInfo) : Option GoExpr :=
+  if rule == "required" then requiredCond f ty
+  else if rule == "enum" then enumCond f ty param info.guard
+  else simpleCond rule f param
+
 /-- one marker on one field → at most one validator (`makeValidator` + the factory) -/
 def mkCheck (structName : String) (parent : List String) (names : List String) (ty : Ty) (m : Marker) : Option Check :=
   match Facts.markerTable.lookup m.id, names.head? with
@@ -117,17 +140,7 @@ def mkCheck (structName : String) (parent : List String) (names : List String) (
     | some info =>
       if !guardOk info.guard ty then none
       else if info.needsExpr && m.expr.isNone then none
-      else
-        let v := m.expr.getD ""
-        let cond := if rule == "required" then requiredCond f ty
-                    else if rule == "enum" then enumCond f ty v info.guard
-                    else simpleCond rule f v
-        let path := structName :: parent ++ [f]
-        let cp := cleanedPath path
-        some { rule := (m.id.drop 8).toString, field := f, ty := ty, cond := cond, path := path,
-               errVar := "Err" ++ cp ++ info.errSuffix ++ "Validation",
-               legacy := sprintf2 info.legacyFmt structName f,
-               memKey := sprintf1 info.keyFmt (if info.keyWithStruct then structName ++ cp else cp) }
+      else some (buildCheck structName parent f ty m.id info (ruleCond rule f ty (m.expr.getD "") info))
   | _, _ => none
 
 def mkChecks (structName : String) (parent : List String) (names : List String) (ty : Ty) (ms : List Marker) : List Check :=
@@ -145,20 +158,33 @@ def fieldDoc : FieldT → List String
   | .leaf _ _ d => d
   | .nest _ d _ => d
 
+/-- a leaf declared with several names `A, B T`: one metadata entry (block) per name -/
+def leafBlocks (structName : String) (parent : List String) (ty : Ty) (ml : List Marker) : List String → List Block
+  | [] => []
+  | n :: ns =>
+    let vs := mkChecks structName parent [n] ty ml
+    (if vs.isEmpty then [] else [{ parent := parent, checks := vs }]) ++ leafBlocks structName parent ty ml ns
+
+/-- the propagation loop over the inner fields of a nested struct (each inner name separately) -/
+def propagated (structName : String) (parent : List String) (ml : List Marker) (fields : List FieldT) : List Check :=
+  (fields.map fun f => ((fieldNames f).map fun n => mkChecks structName parent [n] (fieldTy f) ml).flatten).flatten
+
 mutual
 /-- `analyzeMarker` for one field -/
 def analyzeField (structName : String) (tm : List Marker) (parent : List String) : FieldT → List Block
-  | .leaf names ty doc =>
-    let ml := tm ++ sortById (markersOfDoc doc)
-    let vs := mkChecks structName parent names ty ml
-    if vs.isEmpty then [] else [{ parent := parent, checks := vs }]
-  | .nest names doc fields =>
-    let ml := tm ++ sortById (markersOfDoc doc)
-    -- propagation loop: the markers of the nested field (and the type markers) applied to each inner
-    -- field, with the OUTER parent path
-    let vs := (fields.map fun f => mkChecks structName parent (fieldNames f) (fieldTy f) ml).flatten
-    let pv := parent ++ [names.headD ""]
+  | .leaf names ty doc => leafBlocks structName parent ty (tm ++ sortById (markersOfDoc doc)) names
+  | .nest names doc fields => analyzeNest structName tm parent (tm ++ sortById (markersOfDoc doc)) fields names
+/-- a nested anonymous struct declared with the names `ns`: per name, the propagation block (the
+    markers of the nested field and the type markers applied to each inner field, with the OUTER parent
+    path) followed by the recursive analysis under the extended parent -/
+def analyzeNest (structName : String) (tm : List Marker) (parent : List String) (ml : List Marker)
+    (fields : List FieldT) : List String → List Block
+  | [] => []
+  | n :: ns =>
+    let vs := propagated structName parent ml fields
+    let pv := parent ++ [n]
     (if vs.isEmpty then [] else [{ parent := pv, checks := vs }]) ++ analyzeFields structName tm pv fields
+      ++ analyzeNest structName tm parent ml fields ns
 /-- `analyzeMarker` over a field list -/
 def analyzeFields (structName : String) (tm : List Marker) (parent : List String) : List FieldT → List Block
   | [] => []
